@@ -24,6 +24,9 @@ struct Rec {
     sh: Arc<Mutex<Shared>>,
 }
 
+/// the types of the values layer A stores with a span
+struct E<const N: usize>(usize);
+
 struct KVisit(Option<u64>);
 impl Visit for KVisit {
     fn record_u64(&mut self, f: &Field, v: u64) {
@@ -48,6 +51,7 @@ where
     fn on_new_span(&self, attrs: &span::Attributes<'_>, id: &span::Id, ctx: Context<'_, C>) {
         let mut v = KVisit(None);
         attrs.record(&mut v);
+        if v.0.is_none() { v.0 = attrs.metadata().name().strip_prefix("sp").and_then(|n| n.parse().ok()); }
         let mut sh = self.sh.lock().unwrap();
         if self.is_a {
             sh.idmap.insert(id.into_u64(), v.0.expect("k") as usize);
@@ -57,7 +61,23 @@ where
             Some(p) => idx(&sh, &p),
             None => "-".into(),
         };
-        let line = format!("n{}:{}", v.0.unwrap(), p);
+        // stored data: layer A stores values of 1 or (every third span) 9 different types with the new span — after looking whether
+        // the span, fresh as it is, already carries any (a slot handed out again must come back empty)
+        let mut stale = String::new();
+        if self.is_a {
+            if let Some(span) = ctx.span(id) {
+                let k = v.0.unwrap() as usize;
+                let mut ext = span.extensions_mut();
+                let found = [ext.get_mut::<E<0>>().map(|e| e.0), ext.get_mut::<E<1>>().map(|e| e.0), ext.get_mut::<E<8>>().map(|e| e.0)];
+                if let Some(old) = found.iter().flatten().next() { stale = format!(":STALE-DATA-OF-{}", old); }
+                ext.replace(E::<0>(k));
+                if k % 3 == 0 {
+                    ext.replace(E::<1>(k)); ext.replace(E::<2>(k)); ext.replace(E::<3>(k)); ext.replace(E::<4>(k));
+                    ext.replace(E::<5>(k)); ext.replace(E::<6>(k)); ext.replace(E::<7>(k)); ext.replace(E::<8>(k));
+                }
+            }
+        }
+        let line = format!("n{}:{}{}", v.0.unwrap(), p, stale);
         if self.is_a { sh.log_a.push(line) } else { sh.log_b.push(line) }
     }
     fn on_event(&self, event: &tracing::Event<'_>, ctx: Context<'_, C>) {
@@ -92,16 +112,79 @@ fn worker(rx: Receiver<(Job, bool)>, tx: Sender<()>, own: Dispatch) {
     }
 }
 
+/// a span without any field, named `sp<k>`, written `info_span!(target: .., [parent: ..,] "sp<k>")` (the name must be a literal)
+fn span_named(k: usize, parent: Option<Option<&Span>>) -> Span {
+    macro_rules! mk { ($name:literal) => { match parent {
+        None => tracing::info_span!(target: "app", $name),
+        Some(None) => tracing::info_span!(target: "app", parent: None, $name),
+        Some(Some(p)) => tracing::info_span!(target: "app", parent: p, $name),
+    } } }
+    match k {
+        0 => mk!("sp0"),
+        1 => mk!("sp1"),
+        2 => mk!("sp2"),
+        3 => mk!("sp3"),
+        4 => mk!("sp4"),
+        5 => mk!("sp5"),
+        6 => mk!("sp6"),
+        7 => mk!("sp7"),
+        8 => mk!("sp8"),
+        9 => mk!("sp9"),
+        10 => mk!("sp10"),
+        11 => mk!("sp11"),
+        12 => mk!("sp12"),
+        13 => mk!("sp13"),
+        14 => mk!("sp14"),
+        15 => mk!("sp15"),
+        16 => mk!("sp16"),
+        17 => mk!("sp17"),
+        18 => mk!("sp18"),
+        19 => mk!("sp19"),
+        20 => mk!("sp20"),
+        21 => mk!("sp21"),
+        22 => mk!("sp22"),
+        23 => mk!("sp23"),
+        24 => mk!("sp24"),
+        25 => mk!("sp25"),
+        26 => mk!("sp26"),
+        27 => mk!("sp27"),
+        28 => mk!("sp28"),
+        29 => mk!("sp29"),
+        30 => mk!("sp30"),
+        31 => mk!("sp31"),
+        32 => mk!("sp32"),
+        33 => mk!("sp33"),
+        34 => mk!("sp34"),
+        35 => mk!("sp35"),
+        36 => mk!("sp36"),
+        37 => mk!("sp37"),
+        38 => mk!("sp38"),
+        39 => mk!("sp39"),
+        40 => mk!("sp40"),
+        41 => mk!("sp41"),
+        42 => mk!("sp42"),
+        43 => mk!("sp43"),
+        44 => mk!("sp44"),
+        45 => mk!("sp45"),
+        46 => mk!("sp46"),
+        47 => mk!("sp47"),
+        _ => panic!("span index beyond the named forms"),
+    }
+}
+
+/// the same span written in several ways (the form is a function of the span's number): `span!` with a level, the level's own
+/// macro, with a target, with and without fields — what the registry stores must not depend on the way it was written
 fn make_span(k: usize, parent: &str, handles: &HashMap<usize, Vec<Span>>) -> Span {
-    let k = k as u64;
+    let form = if k < 48 { k % 4 } else { 0 };
+    let ku = k as u64;
     if parent == "c" {
-        span!(Level::INFO, "sp", k)
+        match form { 1 => tracing::info_span!("sp", k = ku), 2 => span_named(k, None), 3 => tracing::info_span!(target: "app", "sp", k = ku), _ => span!(Level::INFO, "sp", k = ku) }
     } else if parent == "r" {
-        span!(parent: None, Level::INFO, "sp", k)
+        match form { 1 => tracing::info_span!(parent: None, "sp", k = ku), 2 => span_named(k, Some(None)), 3 => tracing::info_span!(target: "app", parent: None, "sp", k = ku), _ => span!(parent: None, Level::INFO, "sp", k = ku) }
     } else {
         let j: usize = parent[1..].parse().unwrap();
         let p = handles.get(&j).and_then(|v| v.first()).expect("explicit parent handle");
-        span!(parent: p, Level::INFO, "sp", k)
+        match form { 1 => tracing::info_span!(parent: p, "sp", k = ku), 2 => span_named(k, Some(Some(p))), 3 => tracing::info_span!(target: "app", parent: p, "sp", k = ku), _ => span!(parent: p, Level::INFO, "sp", k = ku) }
     }
 }
 
@@ -241,7 +324,11 @@ fn run_history(line: &str) -> String {
             let k: usize = t[1].parse().unwrap();
             let mut chain: Vec<String> = Vec::new();
             if let Some(tr) = traces.lock().unwrap().get(&k) {
-                tr.with_spans(|_m, fields| { chain.push(fields.trim_start_matches("k=").to_string()); true });
+                tr.with_spans(|m, fields| {
+                    // the span's number: its field `k`, or (spans written without fields) the digits of its name
+                    chain.push(if fields.is_empty() { m.name().trim_start_matches("sp").to_string() } else { fields.trim_start_matches("k=").to_string() });
+                    true
+                });
             }
             outs.push(format!("s:{}", chain.join(".")));
             continue;
